@@ -53,8 +53,22 @@ def main(argv):
                 run.hist("outcomes", "%s%s" % (r.get("r"), (":" + r.get("e", "")) if r.get("r") == "err" else ""))
                 rep = {"pdl": d["text"], "type": T, "op": "enc", "value": v, "injected": inj, "impl": r,
                        "model": m, "reference": ref}
+                # theorem encBody_no_panic: its hypotheses (the layout's LenWFBody, the value's typedBody - "a value of
+                # the generated type") and its statement, evaluated on the model for this value, both modes
+                typed = bool(mlen.get("typed"))
+                run.hist("theorem_hypotheses", "typedBody:%s serde-accepts:%s" % (typed, r.get("r") != "badvalue"))
+                if typed and mlen.get("lenwf"):
+                    run.count("theorem_instances_no_panic")
+                    if m.get("r") == "panic" or idl.get("r") == "panic":
+                        run.violation("corr", "theorem encBody_no_panic contradicted by evaluation on %s (model bug)" % T,
+                                      {"pdl": d["text"], "type": T, "value": v, "corr": "thm:encBody_no_panic"}, found_input=False)
                 if r.get("r") == "badvalue":
                     continue
+                if not typed:
+                    # serde accepted a value the model does not take for a value of the generated type: the typing
+                    # predicate (a theorem hypothesis) would be narrower than the generated type
+                    run.violation("corr", "typedBody rejects a value that serde accepts for %s" % T,
+                                  {"pdl": d["text"], "type": T, "value": v, "corr": "corr:C05/typedBody"}, found_input=False)
                 if r.get("r") not in ("ok", "err"):
                     rep["signature"] = {"class": r.get("r"), "hazard": m.get("h") if m.get("r") == "panic" else None}
                     run.violation("impl", "%s::encode -> %s %s" % (T, r.get("r"), str(r.get("m"))[:150]), rep)
